@@ -384,6 +384,8 @@ def parse_segments(seg: List[Any]) -> Any:
 def work_c(job: Tuple[Case, Cfg]) -> Dict[str, Any]:
     case, cfg = job
     res = new_result(case)
+    if "noc" in case.tags:
+        return res
     rng = random.Random(seed() * 17 + hash(case.name) % 7919)
     with Scratch() as sc:
         try:
